@@ -14,6 +14,15 @@ open Sys Entry
 wake-up and does not read entry fields after the channel receive. -/
 theorem facts_handover : Facts.waiterRereadsEntry = false ∧ Facts.getShape = "ok" := by decide
 
+/-- Obligation on the extracted lock scopes (cache/dispatcher.go): the dispatcher's get-or-create
+is ONE critical section of the shard mutex, held to the end of the function, and the lookup and
+the insert of the shard's LRU happen under it — which is why `Sys.step (.lookup t)` may treat
+"find the resident entry or create and install a new one" as a single atomic step. -/
+theorem facts_get_or_create_atomic :
+    "dispatcher.GetHTTPCache:httpLRUCache:1:deferred" ∈ Facts.lockSections
+      ∧ (Facts.accessTable.filter fun a => a.typ = "httpLRUCache" ∧ a.field = "cache").all (fun a => a.lockW) = true := by
+  decide
+
 theorem reach_inv {s : State} (h : Reachable Facts.waiterRereadsEntry s) : Inv s := by
   rw [facts_handover.1] at h; exact inv_reachable h
 
